@@ -70,8 +70,9 @@ func genParams(r *rng, n int, tier string, emit func(string)) {
 	emit("float 0 0 ~ e " + fbits(0.01) + " " + fbits(0.01) + " " + fbits(math.MaxFloat64))
 	emit("float 0 0 ~ e " + fbits(10) + " " + fbits(0.01) + " " + fbits(math.MaxFloat64))
 	clientKeys := []string{"session.timeout.ms", "group.id", "bootstrap.servers", "enable.auto.commit", "auto.offset.reset", "go.events.channel.size",
-		"compression.codec", "queue.buffering.max.ms", "fetch.min.bytes", "security.protocol", "statistics.interval.ms", "enable.partition.eof", "x", "a.b"}
-	vals := []string{"1", "0", "true", "false", "v", "latest", "earliest", "10.0.0.1:9092", "SASL_SSL", "-5", "A-b_c"}
+		"compression.codec", "queue.buffering.max.ms", "fetch.min.bytes", "security.protocol", "statistics.interval.ms", "enable.partition.eof", "x", "a.b",
+		"go.batch.producer", "go.delivery.reports", "go.application.rebalance.enable", "log.connection.close", "fetch.wait.max.ms", "debug", "api.version.request"}
+	vals := []string{"1", "0", "true", "false", "v", "latest", "earliest", "10.0.0.1:9092", "SASL_SSL", "-5", "A-b_c", "0500", "T", "00", "1e3", "TRUE", "0x10"}
 	for i := 0; i < n; i++ {
 		switch r.intn(10) {
 		case 0, 1, 2, 3:
@@ -293,7 +294,8 @@ func execParams(input string) string {
 		if kc.VerifCheckConfig(params) != nil {
 			return "err"
 		}
-		return "ok"
+		// what the source will use: Setup converts config["maxpartitionlag"] after checkConfig has defaulted it
+		return "ok ml=" + params["maxpartitionlag"]
 	case "int":
 		if len(f) != 7 {
 			return "bad-input"
